@@ -17,8 +17,33 @@ VF = ["Uncond/UncondModel.v", "Uncond/UncondProofs.v"]
 POINTS = ["uncond.publish", "uncond.sig.read", "uncond.sig.clear", "uncond.sig.push"]
 
 
+def private_interp(ctx):
+    """build harness/lib_interp.c against vlib.REPO and keep a private copy: the shared cache build/li is
+    pruned by concurrent checks of other properties"""
+    import shutil
+    last = None
+    for _ in range(4):
+        exe = trace.build_interp()
+        mine = os.path.join(ctx.dir, "interp", os.path.basename(exe))
+        try:
+            os.makedirs(os.path.dirname(mine), exist_ok=True)
+            if not os.path.exists(mine):
+                shutil.copy2(exe, mine + ".tmp%d" % os.getpid())
+                os.rename(mine + ".tmp%d" % os.getpid(), mine)
+            for f in os.listdir(os.path.dirname(mine)):
+                if f != os.path.basename(mine):
+                    try:
+                        os.remove(os.path.join(os.path.dirname(mine), f))
+                    except OSError:
+                        pass
+            return mine
+        except (OSError, IOError) as e:
+            last = e
+    raise vlib.BuildError("lib_interp disappeared while copying: %s" % last)
+
+
 def build(ctx):
-    exe = trace.build_interp()
+    exe = private_interp(ctx)
     drv = vlib.build_driver("C08", "Extract_C08.v", "driver_C08.ml", VF)
     return exe, drv
 
@@ -213,7 +238,7 @@ class Prog:
         self.expect.append((t, self.op(t, s), v))
 
     def text(self, workers, seed, pswitch):
-        c = trace.case_text(workers, seed, self.objs, self.threads, pswitch=pswitch)
+        c = trace.case_text(workers, seed, self.objs, self.threads, pswitch=pswitch, maxsteps=30000)
         return c + "".join("# expect %d %d %d\n" % e for e in self.expect)
 
 
@@ -492,6 +517,17 @@ def run_cases(ctx, exe, drv, cases, tag="c"):
     return out
 
 
+def run_until_failure(ctx, exe, drv, cases, chunk=40):
+    """run_cases in chunks; stop after the first chunk in which the property oracle fails (a broken library
+    can make every further run slow)"""
+    out = []
+    for i in range(0, len(cases), chunk):
+        out += run_cases(ctx, exe, drv, cases[i:i + chunk], tag="c%02d_" % (i // chunk))
+        if any(o["oracle"] for o in out):
+            break
+    return out
+
+
 def load_corpus():
     d = os.path.join(vlib.VERIF, "corpus", "C08")
     cs = []
@@ -517,7 +553,7 @@ def search_oracle_failure(ctx, exe, drv, case, tries):
             t = re.sub(r"^workers \d+", "workers %d" % r.rng(2, 4), t, flags=re.M)
         alts.append(dict(case, text=t))
     alts += stress_cases(r, tries - len(alts))
-    for o in run_cases(ctx, exe, drv, alts, tag="s"):
+    for o in run_until_failure(ctx, exe, drv, alts):
         if o["oracle"]:
             return o
     return None
@@ -547,13 +583,13 @@ def run(ctx):
     exe, drv = build(ctx)
     n = 150 if not ctx.thorough else 3000
     cases = load_corpus() + gen_cases(ctx, n)
-    results = run_cases(ctx, exe, drv, cases)
+    results = run_until_failure(ctx, exe, drv, cases)
     hist, spins, dist, verd, st = summarize(ctx, results)
     bad_oracle = [o for o in results if o["oracle"]]
     bad_model = [o for o in results if o["fail"]]
     nblocks = sum(len(o["model"]) for o in results)
     ctx.cov["correspondence"] = {
-        "cases": len(cases), "model_blocks_replayed": nblocks,
+        "cases": len(results), "cases_generated": len(cases), "model_blocks_replayed": nblocks,
         "model_events_replayed": sum(int(v.split()[1]) for o in results for v in o["model"] if v.startswith("ok")),
         "disagreements": len(bad_model), "oracle_failures": len(bad_oracle),
         "input_distribution": dist, "verdicts": verd, "point_histogram": hist, "uncond.sig.spin": spins,
